@@ -177,51 +177,11 @@ func tryGrid(r *gen.R) (*Truth, float64) {
 			return nil, 0
 		}
 		p := Poly{Outer: outer}
-		// interior lattice points
-		var inner []cell
-		for x := int64(0); x <= W; x++ {
-			for y := int64(0); y <= H; y++ {
-				if Locate(Pt{bx + x*step, by + y*step}, outer) == 1 {
-					inner = append(inner, cell{x, y})
-				}
-			}
-		}
+		inner := interiorCells(outer, bx, by, W, H, step)
 		want := weighted(r, 25, 50, 25)
 		for h := 0; h < want && len(inner) >= 3; h++ {
-			for try := 0; try < 30; try++ {
-				a := inner[r.Intn(len(inner))]
-				var near []cell
-				for _, c := range inner {
-					if abs64(c.x-a.x) <= 2 && abs64(c.y-a.y) <= 2 && c != a {
-						near = append(near, c)
-					}
-				}
-				n := r.Range(3, 4)
-				if len(near) < n-1 {
-					continue
-				}
-				r.Shuffle(len(near), func(i, j int) { near[i], near[j] = near[j], near[i] })
-				cs := append([]cell{a}, near[:n-1]...)
-				var mx, my float64
-				for _, c := range cs {
-					mx += float64(c.x) / float64(n)
-					my += float64(c.y) / float64(n)
-				}
-				sort.Slice(cs, func(i, j int) bool {
-					return math.Atan2(float64(cs[i].y)-my, float64(cs[i].x)-mx) < math.Atan2(float64(cs[j].y)-my, float64(cs[j].x)-mx)
-				})
-				cand := toPts(cs, bx, by, step)
-				ok := Simple(cand) && StrictlyInside(cand, outer, margin)
-				for _, other := range p.Holes {
-					if !ok {
-						break
-					}
-					ok = Disjoint(cand, other, margin)
-				}
-				if ok {
-					p.Holes = append(p.Holes, cand)
-					break
-				}
+			if cand := placeLatticeHole(r, outer, inner, bx, by, step, margin, p.Holes); cand != nil {
+				p.Holes = append(p.Holes, cand)
 			}
 		}
 		t.Polys = append(t.Polys, p)
@@ -241,6 +201,59 @@ func tryGrid(r *gen.R) (*Truth, float64) {
 		return nil, 0
 	}
 	return t, margin
+}
+
+// interiorCells lists the lattice points of the box [0,W]x[0,H] strictly inside the ring.
+func interiorCells(outer []Pt, bx, by, W, H, step int64) []cell {
+	var inner []cell
+	for x := int64(0); x <= W; x++ {
+		for y := int64(0); y <= H; y++ {
+			if Locate(Pt{bx + x*step, by + y*step}, outer) == 1 {
+				inner = append(inner, cell{x, y})
+			}
+		}
+	}
+	return inner
+}
+
+// placeLatticeHole tries to build a lattice triangle / quadrilateral from interior lattice
+// points near a random anchor, strictly inside outer and disjoint from the holes so far.
+func placeLatticeHole(r *gen.R, outer []Pt, inner []cell, bx, by, step int64, margin float64, holes [][]Pt) []Pt {
+	for try := 0; try < 30; try++ {
+		a := inner[r.Intn(len(inner))]
+		var near []cell
+		for _, c := range inner {
+			if abs64(c.x-a.x) <= 2 && abs64(c.y-a.y) <= 2 && c != a {
+				near = append(near, c)
+			}
+		}
+		n := r.Range(3, 4)
+		if len(near) < n-1 {
+			continue
+		}
+		r.Shuffle(len(near), func(i, j int) { near[i], near[j] = near[j], near[i] })
+		cs := append([]cell{a}, near[:n-1]...)
+		var mx, my float64
+		for _, c := range cs {
+			mx += float64(c.x) / float64(n)
+			my += float64(c.y) / float64(n)
+		}
+		sort.Slice(cs, func(i, j int) bool {
+			return math.Atan2(float64(cs[i].y)-my, float64(cs[i].x)-mx) < math.Atan2(float64(cs[j].y)-my, float64(cs[j].x)-mx)
+		})
+		cand := toPts(cs, bx, by, step)
+		ok := Simple(cand) && StrictlyInside(cand, outer, margin)
+		for _, other := range holes {
+			if !ok {
+				break
+			}
+			ok = Disjoint(cand, other, margin)
+		}
+		if ok {
+			return cand
+		}
+	}
+	return nil
 }
 
 func abs64(v int64) int64 {
